@@ -729,3 +729,78 @@ def ftr_unit():
 FTR_UNIT = ftr_unit()
 UNITS_C14.append(FTR_UNIT)
 UNITS.append(FTR_UNIT)
+
+
+# ------------------------------------------------------------------------------------------------ C15: greenback bridges
+# The three elaborate_frame hooks that stitch a greenback-bridged coroutine: each hides its own plumbing frame; when the hook
+# is reached through an inner Frame (the bridge is not parked at its switch / yield point) the walk just continues; otherwise it
+# redirects into the child greenlet (shim), the original coroutine (trampoline, old shim) or the awaited coroutine (await_).
+GB = G + "glue_greenback."
+
+
+def gb_setup(ex, p):
+    frame = sym_ref(p, "frame", "Frame")
+    nxt = sym_any(p, "next_inner")
+    pyf = p.getf(frame.t, "pyframe")
+    fl = p.getf(pyf, "f_locals")
+    p.pc += [is_kind(pyf, "frame"), Val.a(pyf) >= 0, is_exact_kind(fl, "dict"), Val.a(fl) >= 0]
+    p.env.update(frame=frame, next_inner=nxt)
+    ex.unit_args = dict(frame=frame, next_inner=nxt, fl=fl, H0=p.snap())
+    return ex.unit_args
+
+
+def gb_local(ctx, name):
+    a = ctx.args
+    k = ctx.ex.const(ctx.p, name).t
+    return If(a["H0"].dhas(a["fl"], k), a["H0"].dget(a["fl"], k), NONE)
+
+
+def gb_hidden(ctx):
+    return ctx.H.getf(ctx.args["frame"].t, "hide") == mkbool(True)
+
+
+def shim_post(ctx):
+    a = ctx.args
+    inner_is_frame = is_kind(a["next_inner"].t, "Frame")
+    cg, oc = gb_local(ctx, "child_greenlet"), gb_local(ctx, "orig_coro")
+    gf = If(And(Val.is_ref(cg), hasattr_fn("gr_frame")(cg)), a["H0"].getf(cg, "gr_frame"), NONE)
+    if ctx.kind == "return":
+        r = ctx.result.t
+        return And(gb_hidden(ctx), If(inner_is_frame, Val.is_none(r), If(Not(Val.is_none(gf)), r == cg, And(Not(Val.is_none(oc)), r == oc))))
+    return And(gb_hidden(ctx), is_kind(ctx.exc.t, "RuntimeError"), Not(inner_is_frame), Val.is_none(gf), Val.is_none(oc))
+
+
+def tramp_post(ctx):
+    a = ctx.args
+    inner_is_frame = is_kind(a["next_inner"].t, "Frame")
+    oc = gb_local(ctx, "orig_coro")
+    truthy = ctx.ex.truthy(ctx.p, SV(oc))
+    if ctx.kind == "return":
+        r = ctx.result.t
+        return And(gb_hidden(ctx), If(inner_is_frame, Val.is_none(r), And(truthy, r == oc)))
+    return And(gb_hidden(ctx), is_kind(ctx.exc.t, "RuntimeError"), Not(inner_is_frame), Not(truthy))
+
+
+def await_post(ctx):
+    a = ctx.args
+    H0 = a["H0"]
+    nx = a["next_inner"].t
+    parked = Not(And(is_kind(nx, "Frame"),
+                     Not(ctx.ex.eq(ctx.p, SV(H0.getf(H0.getf(H0.getf(nx, "pyframe"), "f_code"), "co_name")), ctx.ex.const(ctx.p, "switch")))))
+    r = ctx.result.t
+    return And(gb_hidden(ctx), If(parked, r == gb_local(ctx, "coro"), Val.is_none(r)))
+
+
+def gb_unit(name, fn, post, both=True):
+    return Unit("C15." + name, GB + fn, gb_setup,
+                post=[Clause("C15." + name + ".redirect_rule", post, on=("return", "raise") if both else ("return",))],
+                bindings=dict(EXTRACT_BINDINGS), methods=dict(STD_METHODS), ctors=dict(CTORS), known_classes=KNOWN,
+                field_types={"f_locals": "dict"}, allowed_raise=(lambda ctx: is_kind(ctx.exc.t, "RuntimeError")) if both else (lambda ctx: is_kind(ctx.exc.t, "AttributeError")),
+                assumptions=["greenback's frame locals (child_greenlet, orig_coro, coro) are read from f_locals as the source does; whether they "
+                             "mean what the comments say is greenback's behaviour, decided by the bounded leg"])
+
+
+GB_UNITS = [gb_unit("greenback_shim", "elaborate_greenback_shim", shim_post), gb_unit("greenback_trampoline", "elaborate_trampoline", tramp_post),
+            gb_unit("greenback_await", "elaborate_greenback_await", await_post, both=False)]
+UNITS_C15 += GB_UNITS
+UNITS += GB_UNITS
